@@ -23,7 +23,7 @@ def plan(recs, tier, seed):
             else:
                 fs = forms
             for f in fs:
-                z3jobs += GC.split_patterns({"obj": obj, "id": r["id"], "acyclic": acyclic, "form": f,
+                z3jobs += GC.split_patterns({"obj": obj, "id": r["id"], "flip": GC.flip_of(seed, r["id"]), "acyclic": acyclic, "form": f,
                                              "prim": False, "patterns": pats, "expects": exp})
             # native-primitive route requested
             pf = [f for f in forms if f != "const"]
@@ -32,10 +32,10 @@ def plan(recs, tier, seed):
             for f in pf:
                 if acyclic:   # must fall back to the auxiliary-variable encoding: decided by z3
                     if n <= 6 or tier != "quick":
-                        z3jobs += GC.split_patterns({"obj": obj, "id": r["id"], "acyclic": True, "form": f,
+                        z3jobs += GC.split_patterns({"obj": obj, "id": r["id"], "flip": GC.flip_of(seed, r["id"]), "acyclic": True, "form": f,
                                                      "prim": True, "patterns": pats, "expects": exp})
                 else:
-                    emitjobs.append({"obj": obj, "id": r["id"], "acyclic": False, "form": f, "expects": exp})
+                    emitjobs.append({"obj": obj, "id": r["id"], "flip": GC.flip_of(seed, r["id"]), "acyclic": False, "form": f, "expects": exp})
     return z3jobs, emitjobs
 
 
@@ -57,7 +57,7 @@ def run(tier, seed):
                            "direction": direction},
                           f"active_vertices_connected(acyclic={job['acyclic']}) {direction} a pattern the definition "
                           f"{'rejects' if m['observed'] is True else 'admits'}",
-                          {"obj": job["obj"], "acyclic": job["acyclic"], "form": job["form"], "prim": job["prim"],
+                          {"obj": job["obj"], "acyclic": job["acyclic"], "form": job["form"], "prim": job["prim"], "flip": job.get("flip", 0),
                            "pattern": m["pattern"], "active": GR.bits_of(m["pattern"], n),
                            "expected": m["expected"], "observed": m["observed"]})
     emitted = GC.pmap(GR.emit_conn, emitjobs)
@@ -102,7 +102,7 @@ def replay(path):
             print(json.dumps(c)[:600])
             bad += 1
             continue
-        job = {"obj": c["obj"], "acyclic": c["acyclic"], "form": c["form"], "prim": c["prim"],
+        job = {"obj": c["obj"], "acyclic": c["acyclic"], "form": c["form"], "prim": c["prim"], "flip": c.get("flip", 0),
                "patterns": [c["pattern"]], "expects": [c["expected"]]}
         mism = GR.run_conn(job)
         print(json.dumps({"obj": c["obj"], "acyclic": c["acyclic"], "form": c["form"], "active": c["active"],
